@@ -173,9 +173,9 @@ macro_rules! harness {
 
 // unwind = N + 1: every loop runs over the N requests (the slice drop loops of the popped requests
 // are not resolved by constant propagation, so a larger bound multiplies the nested drop glue)
-harness!(c12_q_send_loop_1, 2, send_case::<1, false>());
+harness!(c12_q_send_loop_1, 3, send_case::<1, false>());
 harness!(c12_q_send_loop_2, 3, send_case::<2, false>());
 harness!(c12_t_send_loop_3, 4, send_case::<3, false>());
 harness!(c12_t_send_loop_4, 5, send_case::<4, false>());
 harness!(c12_w_send_loop_2, 3, send_case::<2, true>());
-harness!(c12_t_send_retry_2, 3, retry_case::<2>());
+harness!(c12_t_send_retry_2, 4, retry_case::<2>());
